@@ -281,7 +281,21 @@ func TestVerifC45(t *testing.T) {
 		"several same-named children collapse into one Fields key (the type is a map): any one of their texts is accepted",
 		"routed lists are compared as multisets; Segments in order")
 	n := r.N(4000, 120000)
+	only := -1
+	if rp := verifkit.Replay(); rp != nil { // bin/check C45 --replay <witness.json>: re-run exactly that case
+		inner, _ := rp["replay"].(map[string]any)
+		ci, okc := inner["case"].(float64)
+		seed, oks := rp["seed"].(float64)
+		if !okc || !oks {
+			t.Fatalf("VERIF_REPLAY: witness lacks replay.case / seed")
+		}
+		only, r.Seed, n = int(ci), int64(seed), int(ci)+1
+		r.Note("replayed", map[string]any{"case": only, "seed": r.Seed})
+	}
 	for ci := 0; ci < n; ci++ {
+		if only >= 0 && ci != only {
+			continue
+		}
 		rng := r.Rand(ci)
 		// per-document name alphabet
 		k := 3 + rng.Intn(5)
@@ -529,13 +543,15 @@ func TestVerifC45(t *testing.T) {
 		if ok && fieldsOK {
 			r.Count("documents_fully_verified", 1)
 		}
-		if ci < 2 {
+		if ci < 2 || only >= 0 {
 			r.Sample(map[string]any{"input": cs, "segments": len(res.Segments), "items": len(res.Items), "partners": len(res.Partners), "statuses": len(res.Statuses), "dates": len(res.Dates)})
 		}
 	}
-	r.Floor("documents_fully_verified", 1500)
-	r.Floor("routed_segments_verified", 3000)
-	r.Floor("routed_segment_fields_verified", 3000)
+	if only < 0 {
+		r.Floor("documents_fully_verified", 1500)
+		r.Floor("routed_segments_verified", 3000)
+		r.Floor("routed_segment_fields_verified", 3000)
+	}
 }
 
 func c45SameCounts(a, b map[string]int) bool {
